@@ -29,7 +29,7 @@ RULE = ("seeded histories of <= 30 operations over <= 4 live tables (0..8 rows, 
         "an earlier query of the same table (reach probe 'q_mut_q'); distinct = distinct (knobs, op list).")
 STATE_MEASURE = ("states = distinct (row-count bucket, index kind, cached-index-built?, dirty?) per holder at query time; "
                  "transitions = distinct (last mutation kind -> query kind) pairs with an earlier query before the mutation")
-REAL = ["lian.util.data_model.DataModel", "Row", "Column", "pandas 3 DataFrame underneath"]
+REAL = ["lian.util.data_model.DataModel", "Row", "Column", "lian.util.gir_block.GIRBlockViewer / BlockRange", "pandas 3 DataFrame underneath"]
 STUBS = []
 ASSUMPTIONS = [
     "cells written into a column have the column's type (int columns: int/None, str columns: str/None); pandas itself refuses mixed writes",
@@ -40,7 +40,8 @@ ASSUMPTIONS = [
 PROBES = ["q_mut_q", "q_after_append", "q_after_remove", "q_after_modify_element", "q_after_modify_row",
           "q_after_modify_column", "q_after_rename", "q_after_fillna", "q_after_reset_index", "index_query_repeat",
           "nonrange_index", "block_query_hit", "alias_retired", "nan_cell", "dup_value_hit", "new_column_added",
-          "empty_table", "from_query_holder", "slice_holder", "copy_holder"]
+          "empty_table", "from_query_holder", "slice_holder", "copy_holder", "viewer_built", "viewer_child_block", "viewer_append",
+          "viewer_query", "viewer_query_on_child"]
 TIERS = {
     "quick": {"runs": 24000, "budget_s": 150, "chunk": 500, "selftest": 150, "per_run_timeout": 120},
     "thorough": {"runs": 0, "budget_s": 900, "chunk": 2000, "selftest": 600, "per_run_timeout": 120},
@@ -56,14 +57,16 @@ KIND = {"stmt_id": "int", "operation": "str", "name": "str", "v": "int", "name2"
 _DM = None
 _np = None
 _pd = None
+_GBV = None
 
 
 def setup_worker():
-    global _DM, _np, _pd
+    global _DM, _np, _pd, _GBV
     warnings.simplefilter("ignore")
     import numpy, pandas
     from lian.util.data_model import DataModel
-    _DM, _np, _pd = DataModel, numpy, pandas
+    from lian.util.gir_block import GIRBlockViewer
+    _DM, _np, _pd, _GBV = DataModel, numpy, pandas, GIRBlockViewer
 
 
 def col_kind(c):
@@ -134,6 +137,7 @@ def gen_knobs(rng, tier):
         "p_index_query": rng.choice([0.3, 0.6]),
         "muts": sorted(rng.sample(MUTATIONS, rng.randint(2, len(MUTATIONS)))),
         "blocks": rng.random() < 0.5,
+        "w_viewer": rng.choice([0, 0, 2, 5]),
     }
 
 
@@ -227,6 +231,12 @@ def _gen_mutation(rng, k):
         old = rng.choice(["name", "v", "name2", "v2", "operation"])
         new = {"name": "name2", "name2": "name", "v": "v2", "v2": "v", "operation": "s_op"}[old]
         op.update(old=old, new=new)
+        r = rng.random()
+        if r < 0.3:
+            # a rename map whose new names overlap its old names: swap of two same-typed columns, or a chain
+            op["pairs"] = rng.choice([[["name", "operation"], ["operation", "name"]], [["stmt_id", "v"], ["v", "stmt_id"]],
+                                      [["name", "operation"], ["operation", "s_op"]], [["v", "stmt_id"], ["stmt_id", "v2"]],
+                                      [["name", "name2"], ["v", "v2"]]])
     elif kind == "set_columns":
         old = rng.choice(["name", "v", "name2", "v2"])
         op.update(old=old, new={"name": "name2", "name2": "name", "v": "v2", "v2": "v"}[old])
@@ -257,12 +267,73 @@ def _gen_construction(rng, k):
     return op
 
 
+def _gen_gir(rng, k):
+    """a well-formed GIR-like table: unique stmt ids, properly nested block_start/block_end pairs sharing the block id."""
+    rows = []
+    counter = [10]
+
+    def body(depth, budget):
+        n = rng.randint(0, 3)
+        for _ in range(n):
+            if budget[0] <= 0:
+                return
+            counter[0] += 1
+            sid = counter[0]
+            if depth < 3 and rng.random() < 0.45:
+                budget[0] -= 2
+                rows.append({"stmt_id": sid, "operation": "block_start", "name": rng.choice(["a", "b"]), "v": depth})
+                body(depth + 1, budget)
+                rows.append({"stmt_id": sid, "operation": "block_end", "name": rng.choice(["a", "b"]), "v": depth})
+            else:
+                budget[0] -= 1
+                rows.append({"stmt_id": sid, "operation": rng.choice(["x", "y", "x"]), "name": rng.choice(["a", "b", "c"]), "v": rng.choice(INT_VALS)})
+    body(0, [max(4, k["max_rows"] + 4)])
+    if not rows:
+        rows.append({"stmt_id": 11, "operation": "x", "name": "a", "v": 1})
+    return rows
+
+
+VQ_KINDS = ["len", "iterate", "getitem", "contains_stmt_id", "all_stmt_ids", "block_stmt_ids", "stmt_by_id", "stmt_by_pos",
+            "query_operation", "query_field", "boundary"]
+
+
+def _gen_viewer_op(rng, k):
+    r = rng.random()
+    if r < 0.2:
+        return {"op": "viewer_new", "h": rng.randrange(8)}
+    if r < 0.45:
+        return {"op": "viewer_read_block", "v": rng.randrange(8), "b": rng.randrange(40)}
+    if r < 0.5:
+        return {"op": "viewer_append", "v": rng.randrange(8), "w": rng.randrange(8)}
+    kind = rng.choice(VQ_KINDS)
+    q = {"op": "vq", "kind": kind, "v": rng.randrange(8)}
+    if kind == "getitem":
+        q["i"] = rng.randint(-6, 6)
+    elif kind in ("contains_stmt_id", "stmt_by_id", "block_stmt_ids"):
+        q["sid"] = rng.randrange(40)
+    elif kind == "stmt_by_pos":
+        q["i"] = rng.randint(-1, 12)
+    elif kind == "query_operation":
+        q["operation"] = rng.choice(["x", "y", "block_start", "block_end", "zz"])
+    elif kind == "query_field":
+        q["field"], q["value"] = rng.choice([["name", "a"], ["name", "b"], ["v", 1], ["operation", "x"], ["nofield", 1]])
+    elif kind == "boundary":
+        q["bs"] = [rng.randrange(40) for _ in range(rng.randint(0, 3))]
+    return q
+
+
 def generate(rng, k):
     ops = [{"op": "new", "h": 0, "rows": _gen_rows(rng, k, BASE_COLS, n=rng.randint(1, k["max_rows"])), "columns": None}]
+    if k.get("w_viewer"):
+        ops.append({"op": "new", "h": 1, "rows": _gen_gir(rng, k), "columns": None})
+        ops.append({"op": "viewer_new", "h": 1})
     last_q = None
-    weights = ["m"] * k["w_mut"] + ["q"] * k["w_query"] + ["c"] * k["w_cons"]
+    weights = ["m"] * k["w_mut"] + ["q"] * k["w_query"] + ["c"] * k["w_cons"] + ["v"] * k.get("w_viewer", 0)
     for _ in range(k["n_ops"] - 1):
         w = rng.choice(weights)
+        if w == "v":
+            ops.append(_gen_viewer_op(rng, k))
+            continue
         if w == "q":
             if last_q is not None and rng.random() < k["p_repeat_query"]:
                 q = dict(last_q)         # the same query again (typically after a mutation in between)
@@ -354,6 +425,15 @@ def execute(trace):
         else:
             holders[len(log) % 4] = h
         return h
+
+    viewers = []      # dicts: v (GIRBlockViewer), rows ([dict], the snapshot it was built from), s, e (open range), src (holder)
+
+    def add_viewer(v, rows, s_, e_, src):
+        rec = {"v": v, "rows": rows, "s": s_, "e": e_, "src": src}
+        if len(viewers) < 4:
+            viewers.append(rec)
+        else:
+            viewers[len(log) % 4] = rec
 
     def sut(f):
         """run SUT code with stdout/stderr captured; SystemExit -> Quit."""
@@ -541,12 +621,18 @@ def execute(trace):
                         m.rows = [[l, r] for l, r in m.rows if not (r.get(op["col"]) is not None and r.get(op["col"]) == op["v"])]
                         applied = True
                 elif kind == "rename_column":
-                    if op["old"] in m.cols and op["new"] not in m.cols:
+                    pairs = op.get("pairs") or [[op["old"], op["new"]]]
+                    mapping = {a: b for a, b in pairs}
+                    newcols = [mapping.get(c, c) for c in m.cols]
+                    # every old name must exist, the result must not contain duplicate column names
+                    if all(a in m.cols for a in mapping) and len(set(newcols)) == len(newcols):
                         retire_aliases(h)
-                        sut(lambda: h["dm"].rename_column({op["old"]: op["new"]}))
-                        m.cols = [op["new"] if c == op["old"] else c for c in m.cols]
+                        sut(lambda: h["dm"].rename_column(dict(mapping)))
+                        m.cols = newcols
                         for _, r in m.rows:
-                            r[op["new"]] = r.pop(op["old"], None)
+                            vals = {mapping.get(c, c): v for c, v in r.items()}
+                            r.clear()
+                            r.update(vals)
                         applied = True
                 elif kind == "set_columns":
                     if op["old"] in m.cols and op["new"] not in m.cols:
@@ -575,10 +661,64 @@ def execute(trace):
                 if applied:
                     if h["queried"]:
                         h["mut"] = kind
+                    # a block viewer is a view of the rows it was built from: viewers of a mutated table are retired
+                    viewers[:] = [w for w in viewers if w["src"] is not h]
                     log.append([kind, len(m.rows)])
                 else:
                     continue
             # ------------------------------------------------------------ queries
+            elif kind == "viewer_new":
+                h = holders[op["h"] % len(holders)]
+                rows = [dict(r) for _, r in h["model"].rows]
+                if not gir_wellformed(rows):
+                    continue
+                v = sut(lambda: _GBV(h["dm"]))
+                add_viewer(v, rows, -1, len(rows), h)
+                hit("viewer_built")
+                log.append([kind, len(rows)])
+            elif kind in ("viewer_read_block", "viewer_append", "vq"):
+                if not viewers:
+                    continue
+                w = viewers[op["v"] % len(viewers)]
+                rows, s_, e_ = w["rows"], w["s"], w["e"]
+                ids = sorted({r["stmt_id"] for r in rows})
+                if kind == "viewer_read_block":
+                    blocks = [i_ for i_ in ids if block_range(rows, i_)]
+                    inner = [i_ for i_ in blocks if s_ < block_range(rows, i_)[0] and block_range(rows, i_)[1] < e_]
+                    if inner and op["b"] % 4 in (1, 2):
+                        b = inner[op["b"] % len(inner)]        # a block visible from this view
+                    elif blocks and op["b"] % 4 == 3:
+                        b = blocks[op["b"] % len(blocks)]      # any block (possibly outside the view, or the view's own)
+                    else:
+                        b = ids[op["b"] % len(ids)] if ids and op["b"] % 8 else op["b"]
+                    rng_b = block_range(rows, b)
+                    child = sut(lambda: w["v"].read_block(b))
+                    exp_ok = rng_b is not None and s_ < rng_b[0] and rng_b[1] < e_
+                    if exp_ok != (child is not None):
+                        violation = {"step": step, "cls": "viewer:read_block", "detail": {"op": op, "block": b, "expected_visible": exp_ok,
+                                                                                          "observed": repr(child)[:200], "range": [s_, e_], "rows": rows}}
+                    elif child is not None:
+                        add_viewer(child, rows, rng_b[0], rng_b[1], w["src"])
+                        hit("viewer_child_block")
+                    log.append([kind, b, exp_ok])
+                elif kind == "viewer_append":
+                    o = viewers[op["w"] % len(viewers)]
+                    comb = rows[s_ + 1:e_] + o["rows"][o["s"] + 1:o["e"]]
+                    if o is w or not comb or not gir_wellformed(comb):
+                        continue
+                    sut(lambda: w["v"].append_other(o["v"]))
+                    w["rows"], w["s"], w["e"] = [dict(r) for r in comb], -1, len(comb)
+                    hit("viewer_append")
+                    log.append([kind, len(comb)])
+                else:
+                    exp, obs = viewer_query(w, op, sut, ids)
+                    hit("viewer_query")
+                    if s_ != -1:
+                        hit("viewer_query_on_child")
+                    log.append(["vq", op["kind"], obs])
+                    if canon_json(exp) != canon_json(obs):
+                        violation = {"step": step, "cls": f"viewer:{op['kind']}", "detail": {"op": op, "expected": exp, "observed": obs,
+                                                                                             "range": [s_, e_], "rows": rows}}
             elif kind == "q":
                 h = holders[op["h"] % len(holders)]
                 exp, obs, skipped = run_query(h, op, sut, hit, states, trans)
@@ -617,6 +757,98 @@ def execute(trace):
             break
     return {"violation": violation, "probes": probes, "states": states, "trans": trans,
             "steps": len(trace["ops"]), "log": digest_hex([log, violation])}
+
+
+def gir_wellformed(rows):
+    """the input contract of GIRBlockViewer: every row has a stmt id and an operation, ids are unique except for a
+    block_start ... block_end pair sharing the block id, blocks are properly nested and closed."""
+    seen, stack = {}, []
+    for r in rows:
+        sid, op_ = r.get("stmt_id"), r.get("operation")
+        if sid is None or op_ is None:
+            return False
+        if sid in seen and not (seen[sid] == "block_start" and op_ == "block_end"):
+            return False
+        if sid in seen and seen[sid] == "closed":
+            return False
+        if op_ == "block_start":
+            stack.append(sid)
+            seen[sid] = "block_start"
+        elif op_ == "block_end":
+            if not stack or stack[-1] != sid:
+                return False
+            stack.pop()
+            seen[sid] = "closed"
+        else:
+            seen[sid] = "stmt"
+    return not stack
+
+
+def block_range(rows, b):
+    idx = [i for i, r in enumerate(rows) if r["stmt_id"] == b]
+    if len(idx) == 2 and rows[idx[0]]["operation"] == "block_start" and rows[idx[1]]["operation"] == "block_end":
+        return idx[0], idx[1]
+    return None
+
+
+def _vrow(stmt):
+    if stmt is None:
+        return None
+    d = stmt.to_dict()
+    return {str(c): cell(v) for c, v in d.items() if cell(v) is not None}
+
+
+def _mrow(r):
+    return {c: v for c, v in r.items() if v is not None}
+
+
+def viewer_query(w, op, sut, ids):
+    """-> (expected by a scan of the rows the viewer was built from, restricted to its visible range; observed)"""
+    v, rows, s_, e_ = w["v"], w["rows"], w["s"], w["e"]
+    vis = rows[s_ + 1:e_]
+    kind = op["kind"]
+    first_index = {}
+    for i, r in enumerate(rows):
+        first_index.setdefault(r["stmt_id"], i)
+    if kind == "len":
+        return len(vis), sut(lambda: len(v))
+    if kind == "iterate":
+        return [_mrow(r) for r in vis], [_vrow(x) for x in sut(lambda: list(v))]
+    if kind == "getitem":
+        i = op["i"]
+        n = len(vis)
+        exp = _mrow(vis[i]) if -n <= i < n else "IndexError"
+        try:
+            obs = _vrow(sut(lambda: v[i]))
+        except IndexError:
+            obs = "IndexError"
+        return exp, obs
+    if kind in ("contains_stmt_id", "stmt_by_id", "block_stmt_ids"):
+        sid = ids[op["sid"] % len(ids)] if ids and op["sid"] % 4 else op["sid"]
+        fi = first_index.get(sid)
+        visible = fi is not None and s_ < fi < e_
+        if kind == "contains_stmt_id":
+            return visible, bool(sut(lambda: v.contains_stmt_id(sid)))
+        if kind == "stmt_by_id":
+            return (_mrow(rows[fi]) if visible else None), _vrow(sut(lambda: v.get_stmt_by_id(sid)))
+        br = block_range(rows, sid)
+        exp = [rows[i]["stmt_id"] for i in range(br[0] + 1, br[1])] if br else []
+        return exp, [cell(x) for x in sut(lambda: v.get_block_stmt_ids(sid))]
+    if kind == "all_stmt_ids":
+        return sorted({r["stmt_id"] for r in vis}), [cell(x) for x in sut(lambda: v.get_all_stmt_ids())]
+    if kind == "stmt_by_pos":
+        i = op["i"]
+        return (_mrow(rows[i]) if (0 <= i < len(rows) and s_ < i < e_) else None), _vrow(sut(lambda: v.get_stmt_by_pos(i)))
+    if kind == "query_operation":
+        return [_mrow(r) for r in vis if r.get("operation") == op["operation"]], [_vrow(x) for x in sut(lambda: v.query_operation(op["operation"]))]
+    if kind == "query_field":
+        f, val = op["field"], op["value"]
+        return [_mrow(r) for r in vis if r.get(f) is not None and r.get(f) == val], [_vrow(x) for x in sut(lambda: v.query_field(f, val))]
+    if kind == "boundary":
+        bs = [ids[b % len(ids)] if ids and b % 3 else b for b in op["bs"]]
+        ends = [block_range(rows, b)[1] for b in bs if block_range(rows, b)]
+        return max(ends) if ends else -1, int(sut(lambda: v.boundary_of_multi_blocks(list(bs))))
+    return None, None
 
 
 def vio(step, cls, op, exp, obs, h):
